@@ -202,6 +202,21 @@ CLAIMED = {
         note="Trusted: Coq kernel + vm_compute; the two printers in checks/c20.py; harness/h_c20.cpp (new-replacement, interpreter, step "
              "counter). Counts operator new calls only (exceptions use malloc; coroutine frame = 1 block per call). Not covered: thread "
              "pools, never-started Task cancellation, steps inheriting the executor of an awaiting coroutine (skipped, oracle still applied)."),
+    "C05": dict(
+        text="Place.drun (Pipe.core_run with a refusing-executor policy, a job log and co_await On segments) proved for all programs, "
+             "callback bodies, lengths, nesting and policies: one job per Call-type step at the named/inherited executor with at most one "
+             "invocation carrying it and nowhere else; inheritance through inline, unwrapping and refused steps (= the syntactic nearest "
+             "named executor); ThenInline/DetachInline submit nothing at any depth; a refused step sees StopError, value callbacks are "
+             "skipped, the final Result equals the sequential reading with that input replaced and the chain still completes; the Call xor "
+             "Drop contract (at most one finish per job, only submitted jobs, Drop only if refusing, exactly one at quiescence) for Inline "
+             "and Manual (own LTS), Strand (from C07) and FairThreadPool (from C08). Tied to the code by program correspondence: C02's "
+             "typed table with instrumented executor wrappers (per-job Submit/Call/Drop counters, executor stamp around Call/Drop, reject "
+             "from the k-th Submit) over programs x executor assignment x every rejection position, coroutine co_await On sources, "
+             "Detach/Subscribe (11k cases quick / 122k thorough); oracle written from the property text.",
+        design="DESIGN.md §5 C05, §10",
+        technique="Coq refinement proofs over the C02 semantics + program correspondence with instrumented executors",
+        note="Trusted: as C02. Shipped configuration with coroutines (BC), single thread; Stop-vs-Submit interleavings are C07/C08's (explored "
+             "there, cited in the evidence). Several consumers per SharedFuture only in 4 regression scenarios (S5)."),
 }
 
 PENDING = {}
